@@ -71,6 +71,14 @@ int vp_harness_main(void) {
 #if FORM == 9
   ASSERT(vp_find_pn(&h, pos, (uint8_t *)0, m, ci) == -1 && vp_find_cstr(&h, pos, (uint8_t *)0, ci) == -1, "null needle: -1");
 #endif
+#if FORM == 14    /* the const char8_t* overloads: same oracle as the const char* forms */
+  ASSERT(vp_find_c8(&h, pos, nd.f0.f0, ci) == ref_find(sh, hn, sn, z, pos, ci), "find(start, const char8_t*) agrees (needle up to its first NUL)");
+  ASSERT(vp_find_c8n(&h, pos, np, m, ci) == r, "find(start, const char8_t*, len) agrees");
+#endif
+#if FORM == 15
+  ASSERT(vp_find0_c8(&h, nd.f0.f0, ci) == ref_find(sh, hn, sn, z, 0, ci), "find(const char8_t*) starts at 0");
+  ASSERT((vp_contains_c8(&h, nd.f0.f0, ci) != 0) == (ref_find(sh, hn, sn, z, 0, ci) >= 0), "contains(const char8_t*) iff find succeeds");
+#endif
 #if FORM == 10
   ASSERT((vp_contains_pn(&h, np, m, ci) != 0) == (r0 >= 0), "contains(ptr,len) iff find succeeds");
 #endif
@@ -113,6 +121,12 @@ int vp_harness_main(void) {
 #if FORM == 9
   ASSERT(vp_find_last_pn(&h, pos, (uint8_t *)0, m, ci) == -1 && vp_find_last_cstr(&h, pos, (uint8_t *)0, ci) == -1, "null needle: -1");
 #endif
+#if FORM == 10
+  ASSERT(vp_find_last_c8(&h, pos, nd.f0.f0, ci) == ref_find_last(sh, hn, sn, z, pos, ci), "find_last(limit, const char8_t*) agrees");
+#endif
+#if FORM == 11
+  ASSERT(vp_find_last0_c8(&h, nd.f0.f0, ci) == ref_find_last(sh, hn, sn, z, ~(uint64_t)0, ci), "find_last(const char8_t*) searches the whole string");
+#endif
   if (r >= 0 && ra > r) REACH("limit cuts off a later occurrence");
 #else
   {
@@ -134,6 +148,10 @@ int vp_harness_main(void) {
 #endif
 #if FORM == 5
     ASSERT(vp_starts_with_cstr(&h, (uint8_t *)0, ci) != 0 && vp_ends_with_cstr(&h, (uint8_t *)0, ci) != 0, "null text counts as empty");
+#endif
+#if FORM == 6
+    ASSERT((vp_starts_with_c8(&h, nd.f0.f0, ci) != 0) == prez, "starts_with(const char8_t*) agrees");
+    ASSERT((vp_ends_with_c8(&h, nd.f0.f0, ci) != 0) == sufz, "ends_with(const char8_t*) agrees");
 #endif
     if (pre && m >= 1 && m < hn) REACH("proper prefix matched");
   }
